@@ -22,7 +22,8 @@ CONSTANTS MaxLines, MaxDepth, Mode,     \* Mode: "valid" | "robust" | "defect"
 Units      == {"module", "program", "sub", "fun"} \cap UnitKinds     \* "submodule" is opened by OpenSubmodule
 ProcKinds  == {"sub", "fun"}
 SpecScopes == {"module", "submodule", "program", "sub", "fun", "ibody"}     \* have a specification part
-Constructs == {"block", "do", "if", "select", "associate", "where"} \cap ConstructKinds
+\* "ldo" is a labelled DO: "do 10" ... "10 continue" (numeric statement label, also legal in free form)
+Constructs == {"block", "do", "ldo", "if", "select", "associate", "where"} \cap ConstructKinds
 IfaceKinds == {"iface_named", "iface_abstract", "iface_op"}
 
 VARIABLES stack,    \* open scopes: [kind, name, sline, phase, flags]
